@@ -1483,10 +1483,15 @@ _push_range_list_with_suffix(hostlist_t hl, char *pfx, char *sfx,
     int i;
     unsigned long j;
     for (i = 0; i < n; i++) {
+        /* room for prefix, suffix and a number of `width' (at least 20) digits */
+        size_t len = strlen (pfx) + strlen (sfx)
+                     + (rng->width > 20 ? rng->width : 20) + 1;
+        char *host = malloc (len);
+        if (host == NULL)
+            return;
         for (j = rng->lo; j <= rng->hi; j++) {
-            char host[4096];
             hostrange_t hr;
-            snprintf (host, 4096, "%s%0*lu%s", pfx, rng->width, j, sfx);
+            snprintf (host, len, "%s%0*lu%s", pfx, rng->width, j, sfx);
             hr = hostrange_create_single (host);
             hostlist_push_range (hl, hr);
             /*
@@ -1494,6 +1499,7 @@ _push_range_list_with_suffix(hostlist_t hl, char *pfx, char *sfx,
              */
             hostrange_destroy (hr);
         }
+        free (host);
         rng++;
     }
 }
